@@ -4,20 +4,23 @@ import re
 
 from .c14 import _pure_int_const, lit_str_of
 from .lib import ITER_PLUMBING, PLUMBING, callee_allow, closure_of_operand, http_error_ctors_on_error_path, result_split, status_const_of_ctor
-from .lib_c20 import (ABSORB, blocks_after_success, chain_calls, chain_closures, enforced_at, hasher_lineage, hasher_root, lift_atom, origin_chains, pattern_answers, resolve_lit,
-                      separator_answers)
+from .lib_c20 import (DIGEST_OUT, blocks_after_success, chain_calls, chain_closures, chain_fnitems, digest_message, element_hops, enforced_at, lift_atom, origin_chains, pattern_answers, resolve_lit,
+                      returned_variant_sites, separator_answers)
 
 LEVEL = "other"
 TECHNIQUE = ("static analysis: per-header path facts over the only WebsocketUpgrade constructor (it is reached only after the header's test succeeded — whether the test is an iterator chain, "
-             "a for loop with a flag, a guarded match or a `?` — and every other exit returns for_bad_request), element origins followed through closures and loops, concrete evaluation of separator "
-             "predicates, evaluated constants (GUID, \"13\", 101, header names, token literals), ordered absorption into one SHA-1 state lineage, value-preserving chains key -> derive_accept_key -> "
+             "a for loop with a flag, a guarded match, an Option combinator or a `?`, in from_request or in a validation helper inlined into it — and every other exit returns for_bad_request), decided on the normalised view "
+             "(combinators desugared, helper exits threaded into the caller's `?`); element origins followed through closures, mapping adaptors (flat_map/map/filter_map) and loops, concrete evaluation of separator "
+             "predicates (closures or named fns), evaluated constants (GUID, \"13\", 101, header names, token literals), the hashed message as an ordered list of pieces (absorbed into one SHA-1 state lineage, or one "
+             "Digest::digest over a buffer concatenated in the function), value-preserving chains key -> derive_accept_key -> "
              "Sec-WebSocket-Accept and upgraded I/O -> handler")
 LEVEL_TEXT = ("Decided on the MIR of the current tree, for every path: the single construction site of WebsocketUpgrade (private field, one aggregate, inside from_request) is reached only "
               "after four tests, one per mandatory header, have succeeded on the path — Connection contains the token `upgrade` and Upgrade contains `websocket` (eq_ignore_ascii_case on an element "
               "of a split of the header text; the element is followed back to HeaderMap::get*(header) through for loops, iterator adaptors and inlined helpers; absent header = reject), "
               "Sec-WebSocket-Version equals the evaluated bytes \"13\", Sec-WebSocket-Key present — and every other exit returns "
-              "an error built by for_bad_request (evaluated 400) without constructing the upgrade; derive_accept_key absorbs into one fresh SHA-1 state (update or chain_update) the key and then the constant whose evaluated value is "
-              "the RFC 6455 GUID and returns STANDARD base64 of finalize(); its argument is the raw bytes of the key header and its result is the only origin of the Sec-WebSocket-Accept "
+              "an error built by for_bad_request (evaluated 400) without constructing the upgrade; derive_accept_key hashes exactly the key followed by the constant whose evaluated value is "
+              "the RFC 6455 GUID — two update / chain_update calls on one fresh SHA-1 state, or one Digest::digest over a buffer built in the function from exactly these two pieces in this order "
+              "(empty Vec + extend_from_slice, key.to_vec() + extend_from_slice, [key, GUID].concat()) — and returns STANDARD base64 of the digest output (views only in between); its argument is the raw bytes of the key header and its result is the only origin of the Sec-WebSocket-Accept "
               "value in handle; handle answers status 101 with Connection: upgrade / Upgrade: websocket, spawns the task before building the response, and the task passes "
               "WebsocketConnection(WebsocketConnectionRaw(TokioIo::new(upgraded))) — the Ok payload of the awaited upgrade future and nothing else — to the user handler. "
               "Not decided: list syntax beyond `,` SP HTAB separation (quoted strings, comments), traversals that truncate the field lines after get_all (e.g. take(1)), idioms that do not look the header up by name "
@@ -25,10 +28,10 @@ LEVEL_TEXT = ("Decided on the MIR of the current tree, for every path: the singl
 LEVEL_NOTE = ("Trusts rustc MIR + const evaluation, the extractor, engine slices/dominators, http::HeaderMap::get / Builder::header, Option::{map,and_then,unwrap_or,ok_or_else}, "
               "Iterator::any, str::eq_ignore_ascii_case, sha1::Digest, base64 STANDARD, tokio::spawn, hyper::upgrade::on.")
 EXPLANATION = ("path-sensitive boolean facts (bool_states / guarded_by, flags justified definition by definition) per header constant over the coroutine body of from_request with helpers inlined; "
-               "CONST for GUID / version / status / literals read from evaluated operands; ORDER of the two absorb calls by dominance within one hasher lineage; CHAIN slices with allow-lists; "
+               "CONST for GUID / version / status / literals read from evaluated operands; ORDER of the two hashed pieces by dominance within one hasher lineage or one concatenation buffer (every `&mut` use of the buffer is an append of a piece); CHAIN slices with allow-lists; "
                "concrete MIR evaluation of char predicates; exploration with concrete test outcomes for `a match on any line suffices`; WHO-CONSTRUCTS census for WebsocketUpgrade and WebsocketUpgradeInner; SHAPE of the private field.")
-TRUSTED = ["rustc nightly MIR + const evaluation", "mirfacts extractor", "rules/engine.py, rules/lib.py, rules/lib_c20.py", "http::HeaderMap::get / get_all, http::response::Builder", "std Option/Iterator combinators",
-           "sha1::Digest update/finalize, base64 STANDARD engine", "tokio::spawn, hyper::upgrade::on, hyper_util TokioIo"]
+TRUSTED = ["rustc nightly MIR + const evaluation", "mirfacts extractor", "rules/engine.py (incl. helper inlining, combinator normalisation and jump threading of ctx.dsn), rules/lib.py, rules/lib_c20.py", "http::HeaderMap::get / get_all, http::response::Builder", "std Option/Iterator combinators",
+           "sha1::Digest update/chain_update/finalize/digest, Vec::extend_from_slice / [T]::concat / [T]::to_vec, base64 STANDARD engine", "tokio::spawn, hyper::upgrade::on, hyper_util TokioIo"]
 
 GUID = "258EAFA5-E914-47DA-95CA-C5AB0DC85B11"
 UPG_ADT = "websocket::WebsocketUpgrade"
@@ -56,12 +59,12 @@ def _hdr_consts(sl):
 
 
 def _from_request(ctx, R):
-    ids = [it["id"] for i in ctx.ds.impls if i["trait"].endswith("ExclusiveExtractor") and i["self"] == UPG_ADT for it in i["items"] if it["name"] == "from_request"]
-    if len(ids) != 1 or ids[0] not in ctx.ds.F:
+    ids = [it["id"] for i in ctx.dsn.impls if i["trait"].endswith("ExclusiveExtractor") and i["self"] == UPG_ADT for it in i["items"] if it["name"] == "from_request"]
+    if len(ids) != 1 or ids[0] not in ctx.dsn.F:
         ctx.lost(R, "impl ExclusiveExtractor for WebsocketUpgrade :: from_request")
         raise LookupError
-    w = ctx.ds.F[ids[0]]
-    b = ctx.ds.body_of(w)
+    w = ctx.dsn.F[ids[0]]
+    b = ctx.dsn.body_of(w)
     if b is w:
         ctx.lost(R, "coroutine body of WebsocketUpgrade::from_request")
         raise LookupError
@@ -129,12 +132,12 @@ def _token_tests(ctx, b, gbb):
     below it, one side of which is an element that originates from the header lookup in block gbb of `b` — through a
     `for` loop or through the item parameter of closures handed to iterator adaptors — with the literal on the other side."""
     out = []
-    for g in [b] + ctx.ds.descendants(b):
+    for g in [b] + ctx.dsn.descendants(b):
         for ebb, et in g.live_calls(EQ_IC):
             if len(et["args"]) != 2:
                 continue
             for side in (0, 1):
-                for ch in origin_chains(ctx.ds, g, et["args"][side]):
+                for ch in origin_chains(ctx.dsn, g, et["args"][side]):
                     if ch[-1].fn is not b or not any(bb == gbb for _, bb, _ in ch[-1].sl.calls(GET)):
                         continue
                     out.append({"g": g, "ebb": ebb, "chain": ch, "lit": resolve_lit(ch, et["args"][1 - side])})
@@ -149,7 +152,8 @@ def _version_tests(b, gbb):
             continue
         for vi in (0, 1):
             vs, ls = b.slice(ct["args"][vi]), b.slice(ct["args"][1 - vi])
-            if not any(bb == gbb for _, bb, _ in vs.calls(GET)) or ls.callees or ls.params():
+            # the constant side: a literal, or a HeaderValue made of a literal (HeaderValue == HeaderValue compares the bytes)
+            if not any(bb == gbb for _, bb, _ in vs.calls(GET)) or ls.params() or any(not re.search(r"^http::HeaderValue::from_static$", c) for c, _, _ in ls.callees):
                 continue
             vals = []
             for a in ls.atoms:
@@ -169,13 +173,14 @@ def _token_atoms(ctx, b, gbb, H):
     mine = [t for t in tests if t["lit"] is not None and t["lit"].lower() == TOKENS[H]]
     lifted, why = [], []
     for t in mine:
-        a, reason = lift_atom(ctx.ds, t["chain"], t["ebb"])
+        a, reason = lift_atom(ctx.dsn, t["chain"], t["ebb"])
         if a is None:
             why.append(reason)
             continue
-        split = bool(chain_calls(t["chain"], SPLIT))
-        badc = sorted(set(c for h in t["chain"] for c, _ in callee_allow(h.sl, ELEMENT_CHAIN)) |
-                      set(t2["callee"] or "<indirect>" for g in chain_closures(ctx.ds, t["chain"]) for _, t2 in g.live_calls()
+        hops = element_hops(ctx.dsn, t["chain"])
+        split = bool(chain_calls(hops, SPLIT))
+        badc = sorted(set(c for h in hops for c, _ in callee_allow(h.sl, ELEMENT_CHAIN)) | set(p for _, _, _, p in chain_fnitems(hops) if not any(re.search(x, p) for x in ELEMENT_CHAIN)) |
+                      set(t2["callee"] or "<indirect>" for g in chain_closures(ctx.dsn, t["chain"]) for _, t2 in g.live_calls()
                           if not any(re.search(p, t2["callee"] or "") for p in ELEMENT_CHAIN)))
         if not split:
             why.append("the compared value is not an element of a split of the header text")
@@ -212,11 +217,11 @@ def r1_four_checks(ctx):
     if req_idx is None:
         ctx.lost(R, "the captured hyper::Request of from_request")
         return
-    st400 = status_const_of_ctor(ctx.ds, "for_bad_request")
+    st400 = status_const_of_ctor(ctx.dsn, "for_bad_request")
     ctx.check(R, "for_bad_request-is-400", st400 == {400}, "status constants named in for_bad_request: %s" % sorted(st400 or []), nontrivial=False)
     # exits: every definition of the return value is the Ok(..) after the constructor or an Err(for_bad_request)
     defs = [(bb, var, op) for bb, var, op in _ret_defs(b, reach) if not b.dominates(site, bb)]
-    good_defs = [bb for bb, var, op in defs if var == "Err" and op is not None and _err_is_400(ctx.ds, b, op)]
+    good_defs = [bb for bb, var, op in defs if var == "Err" and op is not None and _err_is_400(ctx.dsn, b, op)]
     all_gets = b.live_calls(GET)
     for H in MANDATORY:
         gets = [(bb, t) for bb, t in all_gets if _hdr_consts(b.slice(t["args"][1])) == {H}]
@@ -247,7 +252,7 @@ def r1_four_checks(ctx):
             else:
                 mine = [x for x in vt if x[2] == ["13"]]
                 badv = sorted(set(c for x in mine for c, _ in callee_allow(x[3], PLUMBING + [GET, HEADERS] + OPT_FLOW + HV_VIEW)) |
-                              set(t2["callee"] for x in mine for g in _closures_on(ctx.ds, x[3]) for _, t2 in g.live_calls() if not any(re.search(p, t2["callee"] or "") for p in HV_VIEW + PLUMBING)))
+                              set(t2["callee"] for x in mine for g in _closures_on(ctx.dsn, x[3]) for _, t2 in g.live_calls() if not any(re.search(p, t2["callee"] or "") for p in HV_VIEW + PLUMBING)))
                 t_atoms = set(("call", x[0]) for x in mine if x[1] == "eq")
                 f_atoms = set(("call", x[0]) for x in mine if x[1] == "ne")
                 test_ok = bool(mine) and not badv
@@ -281,32 +286,38 @@ def r1_four_checks(ctx):
         if test_key:
             ctx.check(R, test_key, test_ok, test_det, (b, gbb))
     # nothing else may return Ok, and nothing leaves without a verdict
-    oks = [bb for bb, i, st in b.aggregates(r"^std::result::Result$", "Ok") if bb in reach]
+    # the Ok(..) values that ARE the return value (the return place, back through whole-value moves); an Ok of another Result —
+    # the verdict of an inlined validation helper, the Ok arm of a desugared ok_or_else — is an intermediate value whose
+    # Ok edge is already among the tests above
+    oks = [bb for bb in returned_variant_sites(b, "Ok") if bb in reach]
     ctx.check(R, "ok-only-after-constructor", bool(oks) and all(b.dominates(site, o) for o in oks) and b.must_pass([site] + good_defs) and all(d[0] in good_defs for d in defs),
-              "every Ok(..) of from_request is dominated by the WebsocketUpgrade constructor (%d site(s)); every path to the return passes the constructor or one of %d Err(for_bad_request) exits; other exits: %d"
+              "every Ok(..) returned by from_request is dominated by the WebsocketUpgrade constructor (%d site(s)); every path to the return passes the constructor or one of %d Err(for_bad_request) exits; other exits: %d"
               % (len(oks), len(good_defs), sum(1 for d in defs if d[0] not in good_defs)), (b, site))
 
 
 # ------------------------------------------------------------------------------------------------ R2
 def r2_accept_digest(ctx):
-    R = ctx.rule("C20.R2", "derive_accept_key = STANDARD-base64(SHA-1(key ++ GUID)) with the RFC 6455 GUID; its argument is the raw bytes of the Sec-WebSocket-Key header and its result "
+    R = ctx.rule("C20.R2", "derive_accept_key = STANDARD-base64(SHA-1(key ++ GUID)) with the RFC 6455 GUID (the message fed piecewise to one fresh state or concatenated and hashed in one shot); its argument is the raw bytes of the Sec-WebSocket-Key header and its result "
                  "is the only origin of the Sec-WebSocket-Accept header value", floor=9)
-    f = ctx.need_fn(ctx.ds, R, r"^websocket::derive_accept_key$")
-    # absorb events: `h.update(x)` on a `&mut` state or `h.chain_update(x)` threading the state by value
-    ups = f.live_calls(ABSORB)
-    fin = f.live_calls(r"(^|::)Digest::finalize$")
+    f = ctx.need_fn(ctx.dsn, R, r"^websocket::derive_accept_key$")
+    # the hashed message as an ordered list of byte pieces — two update calls on one `&mut` state, chain_update threading the
+    # state by value, or one Digest::digest over a buffer concatenated in this function (lib_c20.digest_message)
+    SHA = r"sha1::|Sha1"
+    msg = digest_message(f, SHA)
     encs = f.live_calls(r"^base64::Engine::encode$")
-    if len(ups) != 2 or len(fin) != 1 or len(encs) != 1:
-        ctx.lost(R, "two Digest::update / chain_update, one finalize, one Engine::encode in derive_accept_key (%d/%d/%d)" % (len(ups), len(fin), len(encs)))
+    if isinstance(msg, str):
+        ctx.lost(R, "the SHA-1 computation of derive_accept_key: %s" % msg)
         return
-    # classify the absorbed data
-    key_up = guid_up = None
-    guid_val = None
-    for bb, t in ups:
-        s = f.slice(t["args"][1])
-        if s.params() == [1] and not s.callees and not [a for a in s.atoms if a[0] in ("const", "lit")]:
-            key_up = (bb, t)
-        elif not s.params() and not s.callees:
+    if len(encs) != 1:
+        ctx.lost(R, "one base64 Engine::encode in derive_accept_key (%d)" % len(encs))
+        return
+    obb, ot = msg["out"]
+
+    def piece_kind(op):
+        s = f.slice(op)
+        if s.params() == [1] and not s.callees and not [a for a in s.atoms if a[0] in ("const", "lit", "binop", "unop", "rv")]:
+            return "key", None
+        if not s.params() and not s.callees and not [a for a in s.atoms if a[0] in ("binop", "unop", "rv")]:
             vals = []
             for a in s.atoms:
                 if a[0] in ("const", "lit"):
@@ -315,42 +326,43 @@ def r2_accept_digest(ctx):
                     except Exception:
                         v = None
                     vals.append(v.get("str") if isinstance(v, dict) and "str" in v else (bytes(v["bytes"]).decode("latin-1") if isinstance(v, dict) and isinstance(v.get("bytes"), list) else None))
-            guid_up = (bb, t)
-            guid_val = vals
-    if key_up is None or guid_up is None:
-        ctx.check(R, "updates-are-key-and-guid", False, "the two absorbed values are not (the key argument unmodified, a constant)", f)
+            return "const", vals
+        return "other", None
+    kinds = [piece_kind(op) for bb, op in msg["pieces"]]
+    if sorted(k for k, _ in kinds) != ["const", "key"]:
+        ctx.check(R, "updates-are-key-and-guid", False, "the hashed pieces are not exactly (the key argument unmodified, a constant): %s piece(s) %s (%s)"
+                  % (len(kinds), [k for k, _ in kinds], msg["form"]), (f, obb))
         return
+    guid_val = [v for k, v in kinds if k == "const"][0]
+    guid_site = [p[0] for p, (k, _) in zip(msg["pieces"], kinds) if k == "const"][0]
     if not guid_val or None in guid_val:
         ctx.lost(R, "evaluated value of the GUID constant (byte-string constant without a value in the facts)")
     else:
-        ctx.check(R, "guid-value", guid_val == [GUID], "constant hashed after the key = %r (RFC 6455: %r)" % (guid_val, GUID), (f, guid_up[0]))
-    # one hasher: the state that is finalized is the state (or, for chain_update, the successor of the state) both values were absorbed into
-    SHA = r"sha1::|Sha1"
-    lin, inits, probs = hasher_lineage(f, fin[0][1], SHA)
-    hk, hg = hasher_root(f, key_up[1]["args"][0], SHA), hasher_root(f, guid_up[1]["args"][0], SHA)
-    ctx.check(R, "one-sha1-state", bool(lin) and hk in lin and hg in lin and not probs, "both absorbed values and finalize operate on one SHA-1 state lineage (locals %s; key into %s, GUID into %s)%s"
-              % (sorted(lin), hk, hg, ("; " + "; ".join(probs)) if probs else ""), f)
-    ctx.check(R, "fresh-sha1-state", len(inits) == 1 and not probs, "hasher initialised by %s" % inits, f)
-    ctx.check(R, "key-then-guid-then-finalize", f.dominates(key_up[0], guid_up[0]) and f.dominates(guid_up[0], fin[0][0]) and key_up[0] != guid_up[0]
-              and key_up[0] not in f.loop_blocks() and guid_up[0] not in f.loop_blocks(),
-              "absorb(key) dominates absorb(GUID) dominates finalize(): %s / %s" % (f.dominates(key_up[0], guid_up[0]), f.dominates(guid_up[0], fin[0][0])), (f, guid_up[0]))
+        ctx.check(R, "guid-value", guid_val == [GUID], "constant hashed after the key = %r (RFC 6455: %r)" % (guid_val, GUID), (f, guid_site))
+    ctx.check(R, "one-sha1-state", msg["one_state"][0], msg["one_state"][1], f)
+    ctx.check(R, "fresh-sha1-state", msg["fresh"][0], msg["fresh"][1], f)
+    ctx.check(R, "key-then-guid-then-finalize", [k for k, _ in kinds] == ["key", "const"] and msg["ordered"],
+              "the hashed message is %s (want key ++ GUID), %s form; each piece dominates the next and the last one the digest call, none in a loop: %s"
+              % (" ++ ".join("key" if k == "key" else "GUID" for k, _ in kinds), msg["form"], msg["ordered"]), (f, guid_site))
     ebb, et = encs[0]
     eng = sorted(set(a[1] for a in f.slice(et["args"][0]).atoms if a[0] == "const"))
-    ds_ = f.slice(et["args"][1])
-    DIGEST_OPS = [ABSORB, r"(^|::)Digest::finalize$", r"Default::default$", r"(^|::)Digest::new$", r"AsRef::as_ref$", r"GenericArray.*as_slice$", r"<impl \[T\]>::(as_ref|to_vec)$"]
-    badd = callee_allow(ds_, PLUMBING + DIGEST_OPS)
-    ret = f.slice({"l": 0, "p": []})
-    ctx.check(R, "standard-base64-of-the-digest", len(eng) == 1 and bool(re.search(r"(^|::)STANDARD$", eng[0])) and any(bb == fin[0][0] for _, bb, _ in ds_.calls(r"Digest::finalize$")) and not badd
-              and any(bb == ebb for _, bb, _ in ret.calls(r"Engine::encode$")) and not callee_allow(ret, PLUMBING + [r"Engine::encode$"] + DIGEST_OPS),
-              "engine %s, data = finalize() via %s, result returned unmodified" % (eng, [x[0] for x in badd] or "a borrow only"), (f, ebb))
+    # between the digest output and the encoder only views; between the encoder and the return value nothing
+    ds_ = f.slice(et["args"][1], stop_at_calls=DIGEST_OUT)
+    VIEWS = [r"AsRef::as_ref$", r"GenericArray.*as_slice$", r"<impl \[T\]>::(as_ref|to_vec)$"]
+    badd = callee_allow(ds_, PLUMBING + [DIGEST_OUT] + VIEWS)
+    shaped = [a for a in ds_.atoms if a[0] in ("binop", "unop", "lit", "const", "param")]
+    ret = f.slice({"l": 0, "p": []}, stop_at_calls=r"Engine::encode$")
+    ctx.check(R, "standard-base64-of-the-digest", len(eng) == 1 and bool(re.search(r"(^|::)STANDARD$", eng[0])) and any(bb == obb for _, bb, _ in ds_.calls(DIGEST_OUT)) and not badd and not shaped
+              and any(bb == ebb for _, bb, _ in ret.calls(r"Engine::encode$")) and not callee_allow(ret, PLUMBING + [r"Engine::encode$"]),
+              "engine %s, data = the digest via %s, result returned unmodified" % (eng, [x[0] for x in badd] + [str(a[:2]) for a in shaped] or "a borrow only"), (f, ebb))
     # the argument: raw bytes of the key header; the result: accept_key of the inner struct
     try:
         w, b = _from_request(ctx, R)
     except LookupError:
         return
     inner = [(bb, st) for bb, i, st in b.aggregates("^" + re.escape(INNER_ADT) + "$") if bb in b.reachable(0)]
-    all_inner = [(g.id, bb) for g in ctx.ds.F.values() for bb, i, st in g.aggregates("^" + re.escape(INNER_ADT) + "$")]
-    fields = [fl["name"] for fl in ctx.ds.adts[INNER_ADT]["variants"][0]["fields"]]
+    all_inner = [(g.id, bb) for g in ctx.dsn.F.values() for bb, i, st in g.aggregates("^" + re.escape(INNER_ADT) + "$")]
+    fields = [fl["name"] for fl in ctx.dsn.adts[INNER_ADT]["variants"][0]["fields"]]
     if len(inner) != 1 or len(all_inner) != 1 or "accept_key" not in fields:
         ctx.lost(R, "the single WebsocketUpgradeInner{..accept_key..} aggregate (in from_request: %d, anywhere: %d)" % (len(inner), len(all_inner)))
         return
@@ -362,7 +374,7 @@ def r2_accept_digest(ctx):
     VIEW = [r"^http::HeaderValue::as_bytes$"]
     badk = callee_allow(ks, PLUMBING + [GET, HEADERS] + OPT_FLOW + VIEW + ["^" + re.escape(f.id) + "$"])
     hdrs = _hdr_consts(ks)
-    cls = [g for g in _closures_on(ctx.ds, ks)]
+    cls = [g for g in _closures_on(ctx.dsn, ks)]
     derive_sites, other = [], []
     for g in [b] + cls:
         calls = g.live_calls() if g is not b else [(bb2, t2) for c2, bb2, t2 in ks.callees]
@@ -378,19 +390,19 @@ def r2_accept_digest(ctx):
     arg_ok, arg_det = [], []
     for g, cbb, ct in derive_sites:
         # the argument of derive_accept_key: bytes view of the looked-up header value, nothing else
-        for ch in origin_chains(ctx.ds, g, ct["args"][0]):
+        for ch in origin_chains(ctx.dsn, g, ct["args"][0]):
             bad_a = sorted(set(c for h in ch for c, _ in callee_allow(h.sl, PLUMBING + [GET, HEADERS] + OPT_FLOW + VIEW)))
             lits = [a for h in ch for a in h.sl.atoms if a[0] == "lit" or (a[0] == "const" and not re.search(r"(^|::)header::[A-Z_0-9]+$", a[1]))]
             from_key = ch[-1].fn is b and set(x for h in ch for x in _hdr_consts(h.sl)) == {"SEC_WEBSOCKET_KEY"} and bool(ch[-1].sl.calls(GET))
-            views = len(chain_calls(ch, VIEW[0])) + sum(1 for g2 in chain_closures(ctx.ds, ch) if g2 is not g for _ in g2.live_calls(VIEW[0]))
+            views = len(chain_calls(ch, VIEW[0])) + sum(1 for g2 in chain_closures(ctx.dsn, ch) if g2 is not g for _ in g2.live_calls(VIEW[0]))
             arg_ok.append(from_key and not bad_a and not lits and views == 1)
             arg_det.append("from get(KEY): %s, as_bytes views: %d, other operations: %s" % (from_key, views, bad_a + [str(x[1])[:30] for x in lits] or "none"))
     ctx.check(R, "accept-key-is-digest-of-raw-key-bytes", hdrs == {"SEC_WEBSOCKET_KEY"} and not badk and len(derive_sites) == 1 and bool(arg_ok) and all(arg_ok) and not other,
               "WebsocketUpgradeInner.accept_key <- get(%s) -> as_bytes -> derive_accept_key (sites %d; argument %s); other operations on the chain: %s"
               % (sorted(hdrs), len(derive_sites), arg_det, [x[0] for x in badk] + other or "none"), (b, ibb))
-    dcallers = [(g.id, bb) for g, bb, t in ctx.ds.callers_of("^" + re.escape(f.id) + "$")]
+    dcallers = [(g.id, bb) for g, bb, t in ctx.dsn.callers_of("^" + re.escape(f.id) + "$")]
     ctx.check(R, "derive-called-once", len(dcallers) == 1, "call sites of derive_accept_key: %s" % [d[0].split("::")[-1] for d in dcallers], f)
-    h = ctx.need_fn(ctx.ds, R, r"^websocket::WebsocketUpgrade::handle$")
+    h = ctx.need_fn(ctx.dsn, R, r"^websocket::WebsocketUpgrade::handle$")
     acc = [(bb, t) for bb, t in h.live_calls(r"^http::response::Builder::header$") if _hdr_consts(h.slice(t["args"][1])) == {"SEC_WEBSOCKET_ACCEPT"}]
     if len(acc) != 1:
         ctx.lost(R, "Builder::header(SEC_WEBSOCKET_ACCEPT, ..) in handle (%d)" % len(acc))
@@ -401,7 +413,7 @@ def r2_accept_digest(ctx):
     ctx.check(R, "accept-header-is-the-stored-digest", vs.reads_field("accept_key") and vs.params() == [1] and not badv and not [a for a in vs.atoms if a[0] in ("lit", "const")],
               "Sec-WebSocket-Accept value = self.0.take().accept_key (params %s) via %s" % (vs.params(), [x[0] for x in badv] or "Option::take only"), (h, abb))
     writes = []
-    for g in ctx.ds.F.values():
+    for g in ctx.dsn.F.values():
         for bb, i, st in g.stmts():
             if any(isinstance(e, dict) and e.get("n") == "accept_key" for e in st["pl"]["p"]):
                 writes.append(g.id)
@@ -495,7 +507,7 @@ def r3_switching_and_handoff(ctx):
 # ------------------------------------------------------------------------------------------------ R4
 def r4_no_bypass(ctx):
     R = ctx.rule("C20.R4", "WebsocketUpgrade's field is private and the only place that constructs it (or its inner struct) is from_request", floor=3)
-    a = ctx.ds.adts.get(UPG_ADT)
+    a = ctx.dsn.adts.get(UPG_ADT)
     if not a:
         ctx.lost(R, "ADT table of WebsocketUpgrade")
         return
@@ -505,9 +517,9 @@ def r4_no_bypass(ctx):
         w, b = _from_request(ctx, R)
     except LookupError:
         return
-    home = set([w.id, b.id] + [g.id for g in ctx.ds.descendants(b)])
+    home = set([w.id, b.id] + [g.id for g in ctx.dsn.descendants(b)])
     for adt in (UPG_ADT, INNER_ADT):
-        sites = sorted(set(g.id for g in ctx.ds.F.values() for bb, i, st in g.aggregates("^" + re.escape(adt) + "$")))
+        sites = sorted(set(g.id for g in ctx.dsn.F.values() for bb, i, st in g.aggregates("^" + re.escape(adt) + "$")))
         ctx.check(R, "constructed-only-in-from_request:%s" % adt.split("::")[-1], bool(sites) and all(s in home for s in sites), "aggregate sites: %s" % [s.split(">::")[-1] for s in sites], b)
 
 
@@ -580,15 +592,16 @@ def x5_list_headers(ctx):
         for t in tests:
             ans = {44: False, 32: False, 9: False}
             undecided = False
-            for g, sbb, stt in chain_calls(t["chain"], SPLIT):
-                a = separator_answers(ctx.ds, g, stt, [44, 32, 9])
+            hops = element_hops(ctx.dsn, t["chain"])
+            for g, sbb, stt in chain_calls(hops, SPLIT):
+                a = separator_answers(ctx.dsn, g, stt, [44, 32, 9])
                 for ch, v in a.items():
                     if v is None:
                         undecided = True
                     ans[ch] = ans[ch] or bool(v)
-            trims = bool(chain_calls(t["chain"], TRIM))
-            for g, tbb, tt in chain_calls(t["chain"], r"str::<impl str>::trim_matches$"):
-                a = pattern_answers(ctx.ds, g, tt["args"][1], [32, 9]) if len(tt["args"]) > 1 else {}
+            trims = bool(chain_calls(hops, TRIM)) or any(re.search(TRIM, p) for _, _, _, p in chain_fnitems(hops))
+            for g, tbb, tt in chain_calls(hops, r"str::<impl str>::trim_matches$"):
+                a = pattern_answers(ctx.dsn, g, tt["args"][1], [32, 9]) if len(tt["args"]) > 1 else {}
                 trims = trims or (a.get(32) is True and a.get(9) is True)
             ok = ans[44] and (trims or (ans[32] and ans[9]))
             ok_all = ok_all and ok
@@ -634,8 +647,14 @@ _VER_TAIL = """            != Some(b"13")
 _CONN_FOLD = """                    .any(|vs| vs.eq_ignore_ascii_case("upgrade"))
             })
             .unwrap_or(false)"""
+_CONN_ANY = """            .any(|hv| {
+                hv.split(|c| c == ',' || c == ' ' || c == '\\t')
+                    .any(|vs| vs.eq_ignore_ascii_case("upgrade"))
+            })
+"""
 _UPDATES = """    sha1.update(request_key);
     sha1.update(WS_GUID);"""
+_SHA_BODY = "    let mut sha1 = Sha1::default();\n" + _UPDATES + "\n    base64::engine::general_purpose::STANDARD.encode(&sha1.finalize())"
 _KEY_ERR = """                HttpError::for_bad_request(
                     None,
                     "missing websocket key".to_string(),
@@ -789,6 +808,49 @@ SELFTEST = [
         }
         if !protocol_ok {""")],
      "expect": ["C20.X5"], "why": "the per-line result overwrites the flag instead of being OR-ed into it (the defect of seeded change C20-A, with get_all): `Upgrade: websocket` followed by `Upgrade: h2c` is refused"},
+    {"name": "connection-flat-map-named-separator", "kind": "benign",
+     "edits": [(WS, _CONN_ANY, """            .flat_map(|line| line.split(is_list_separator))
+            .any(|tok| tok.eq_ignore_ascii_case("upgrade"))
+"""), (WS, "/// This `ExclusiveExtractor` implementation constructs", "#[inline]\nfn is_list_separator(c: char) -> bool {\n    matches!(c, ',' | ' ' | '\\t')\n}\n\n/// This `ExclusiveExtractor` implementation constructs")],
+     "why": "behaviour-preserving: `lines.any(|l| l.split(p).any(q))` flattened to `lines.flat_map(|l| l.split(p)).any(q)`; the separator predicate is a named fn written with matches! (the mapping closure's return value is part of the element's history; the predicate is decided by evaluating it)"},
+    {"name": "connection-flat-map-comma-only", "kind": "mutant",
+     "edits": [(WS, _CONN_ANY, """            .flat_map(|line| line.split(','))
+            .any(|tok| tok.eq_ignore_ascii_case("upgrade"))
+""")],
+     "expect": ["C20.X5"], "why": "flattened spelling that separates at ',' only and does not trim: `Connection: keep-alive, Upgrade` is refused"},
+    {"name": "connection-flat-map-first-token-only", "kind": "mutant",
+     "edits": [(WS, _CONN_ANY, """            .map(|line| line.split(|c| c == ',' || c == ' ' || c == '\\t').count())
+            .any(|n| n > 0)
+""")],
+     "expect": ["C20.R1"], "why": "no token is compared with `upgrade` any more"},
+    {"name": "version-is-some-and-flag", "kind": "benign",
+     "edits": [(WS, _VER_HEAD + "\n            .map(|v| v.as_bytes())\n" + _VER_TAIL,
+                '        let version_is_supported = request.headers().get(header::SEC_WEBSOCKET_VERSION).is_some_and(|version| version.as_bytes() == b"13");\n        if !version_is_supported {')],
+     "why": "behaviour-preserving: `get(V).map(as_bytes) != Some(b\"13\")` written as a named flag computed by is_some_and (decided on the normalised view, where the combinator is a switch with the closure body spliced in)"},
+    {"name": "version-is-none-or", "kind": "mutant",
+     "edits": [(WS, _VER_HEAD + "\n            .map(|v| v.as_bytes())\n" + _VER_TAIL,
+                '        let version_is_supported = request.headers().get(header::SEC_WEBSOCKET_VERSION).is_none_or(|version| version.as_bytes() == b"13");\n        if !version_is_supported {')],
+     "expect": ["C20.R1"], "why": "a handshake without Sec-WebSocket-Version is upgraded (is_none_or for is_some_and)"},
+    {"name": "sha1-one-shot-over-concatenation", "kind": "benign",
+     "edits": [(WS, _SHA_BODY,
+                "    let mut message = Vec::with_capacity(request_key.len() + WS_GUID.len());\n    message.extend_from_slice(request_key);\n    message.extend_from_slice(WS_GUID);\n"
+                "    let digest = Sha1::digest(&message);\n    base64::engine::general_purpose::STANDARD.encode(digest.as_slice())")],
+     "why": "behaviour-preserving: SHA-1 of the concatenation key ++ GUID built in a Vec and hashed by the one-shot Digest::digest equals two update calls on a fresh state"},
+    {"name": "sha1-one-shot-array-concat", "kind": "benign",
+     "edits": [(WS, _SHA_BODY, "    let digest = Sha1::digest([request_key, WS_GUID].concat());\n    base64::engine::general_purpose::STANDARD.encode(digest)")],
+     "why": "behaviour-preserving: the message is `[key, GUID].concat()`"},
+    {"name": "sha1-one-shot-guid-first", "kind": "mutant",
+     "edits": [(WS, _SHA_BODY, "    let mut message = WS_GUID.to_vec();\n    message.extend_from_slice(request_key);\n    let digest = Sha1::digest(&message);\n    base64::engine::general_purpose::STANDARD.encode(digest)")],
+     "expect": ["C20.R2"], "why": "digest of GUID ++ key, written as a one-shot digest over a concatenation"},
+    {"name": "sha1-one-shot-array-concat-guid-first", "kind": "mutant",
+     "edits": [(WS, _SHA_BODY, "    let digest = Sha1::digest([WS_GUID, request_key].concat());\n    base64::engine::general_purpose::STANDARD.encode(digest)")],
+     "expect": ["C20.R2"], "why": "digest of GUID ++ key, written as `[GUID, key].concat()`"},
+    {"name": "sha1-one-shot-buffer-truncated", "kind": "mutant",
+     "edits": [(WS, _SHA_BODY, "    let mut message = request_key.to_vec();\n    message.extend_from_slice(WS_GUID);\n    message.truncate(36);\n    let digest = Sha1::digest(&message);\n    base64::engine::general_purpose::STANDARD.encode(digest)")],
+     "expect": ["C20.R2"], "why": "the concatenation is modified before it is hashed"},
+    {"name": "sha1-one-shot-guid-appended-after-digest", "kind": "mutant",
+     "edits": [(WS, _SHA_BODY, "    let mut message = request_key.to_vec();\n    let digest = Sha1::digest(&message);\n    message.extend_from_slice(WS_GUID);\n    base64::engine::general_purpose::STANDARD.encode(digest)")],
+     "expect": ["C20.R2"], "why": "the GUID is appended to the buffer only after the digest was taken: SHA-1(key) is answered"},
     {"name": "log-line-and-match", "kind": "benign",
      "edits": [(WS, "        let route = request.uri().to_string();", '        debug!(rqctx.log, "websocket handshake accepted");\n        let route = request.uri().to_string();'),
                (WS, "            })\n        {\n            return Err(HttpError::for_bad_request(\n                None,\n                \"expected connection upgrade\".to_string(),\n            ));\n        }",
